@@ -135,6 +135,9 @@ func markerPath(p PathSpec, label string, si *shapeInfo) bool {
 	case "yaml":
 		return true
 	case "confmap":
+		if byValueLabel(label) {
+			return !si.kinds["array"] // arrays (even empty ones) stay typed in the Conf: listed finding confmap/array-not-encoded
+		}
 		return label != "tsm%#v" // arrays keep their element type in the string map
 	case "slog":
 		return true
